@@ -66,6 +66,7 @@ type ContractDB struct {
 	ByKey map[string]*Contract // pkg.Key
 	All   []*Contract
 	Preds map[string]*Pred // pkg.name
+	Dups  []string         // keys declared more than once
 }
 
 // Pred is a contract-level abbreviation: //@ pred name(a, b): expr
@@ -519,6 +520,10 @@ func (db *ContractDB) loadFile(fn string) error {
 }
 
 func (db *ContractDB) add(c *Contract) {
+	if prev, dup := db.ByKey[c.Pkg+"."+c.Key]; dup && prev != c {
+		// the later declaration would silently replace the earlier one at every call site
+		db.Dups = append(db.Dups, c.Pkg+"."+c.Key)
+	}
 	db.ByKey[c.Pkg+"."+c.Key] = c
 	db.All = append(db.All, c)
 }
